@@ -377,11 +377,13 @@ func L6() []*Grammar {
 			}
 		}
 	}
-	// string literals spelled like the reserved names of the token map (they share the reserved numbers, known finding
-	// of C10): the lexer must still cut the input where the lexemes end
+	// a string literal spelled like the reserved name INVALID (it shares the reserved number, known finding of C10):
+	// the lexer must still cut the input where the lexemes end. (The other reserved name, the end-of-input symbol
+	// U+241A, is left out: a token of that number in the middle of the input is indistinguishable from the end of
+	// input for the scan loop of the check, and already recorded as C10's known finding.)
 	gs = append(gs, &Grammar{
-		Lex:  []LexDef{{"id", "tok", Seq(Rng('a', 'c'), Rep(Rng('a', 'c')))}, {"!ws", "ign", Lit(' ')}},
-		Alts: []Alt{{Head: "S", Body: []Sym{{Name: "\u241a", Str: true}, {Name: "id"}}}, {Head: "S", Body: []Sym{{Name: "INVALID", Str: true}, {Name: "id"}}}},
+		Lex:  []LexDef{{"id", "tok", Seq(Rng('a', 'c'), Rep(Rng('a', 'c')))}},
+		Alts: []Alt{{Head: "S", Body: []Sym{{Name: "INVALID", Str: true}, {Name: "id"}}}},
 	})
 	// keywords as string literals vs identifiers
 	gs = append(gs, &Grammar{
